@@ -6,7 +6,7 @@
 (* the inputs and the IMPLEMENTATION's output.  TLC re-computes every      *)
 (* result with the reference ZRings.tla, checks the law instances on the   *)
 (* recorded outputs, and validates solver outputs BY SUBSTITUTION.         *)
-(* Event: [op, law, x, y, z, n, out, out2, exc]; ring elements are integer *)
+(* Event: [op, law, x, y, z, n, out, out2, exc, ovf]; elements are integer  *)
 (* sequences, a 2x2 matrix is <<k, 16 ints>>, a 3x3 matrix <<k, 18 ints>>; *)
 (* exc = "" (returned), "None" (returned None) or the exception class.     *)
 (* Kinds: "V" property violation, "D" drift (mechanism / outside the       *)
@@ -84,34 +84,51 @@ CheckLaw(ev, lhs) ==
   ELSE OK
 
 (* ------------------------- division, remainder, roots ------------------ *)
+\* A faulty implementation may return numbers of any size.  Every check that would MULTIPLY recorded outputs first
+\* bounds them (by a bound that every correct result satisfies), so that a wrong result is reported, not a TLC overflow.
+Within(s, cap) == \A m \in 1..Len(s) : AbsI(s[m]) <= cap
+MaxAbs4(x) == MaxI(MaxI(AbsI(x[1]), AbsI(x[2])), MaxI(AbsI(x[3]), AbsI(x[4])))
+SumSq4(x) == x[1] * x[1] + x[2] * x[2] + x[3] * x[3] + x[4] * x[4]
+\* the quotient is unique: compare with the reference quotient (no product of recorded numbers)
 CheckS2TrueDiv(ev) ==
-  IF ev.exc = "" THEN (IF Len(ev.out) = 2 /\ S2MulV(ev.out, ev.y) = ev.x THEN OK ELSE R("V", "s2.truediv:not-the-quotient", 0))
+  IF ev.exc = "" THEN (IF Len(ev.out) = 2 /\ ev.y # S2Zero /\ S2DividesV(ev.y, ev.x) /\ ev.out = S2QuotV(ev.x, ev.y) THEN OK
+                       ELSE R("V", "s2.truediv:not-the-quotient", 0))
   ELSE IF ev.y # S2Zero /\ S2DividesV(ev.y, ev.x) THEN R("D", "s2.truediv:raised-on-exact-division", 0) ELSE OK
 CheckS2Mod(ev) ==
   IF ev.y = S2Zero THEN OK
   ELSE IF ev.exc # "" THEN R("V", "s2.mod:exception", 0)
+  ELSE IF ~(Len(ev.out) = 2 /\ Within(ev.out, 1048576)) THEN R("D", "s2.mod:remainder-out-of-range", 0)
   ELSE IF ~(S2DividesV(ev.y, S2SubV(ev.x, ev.out)) \/ S2DividesV(ev.y, S2AddV(ev.x, ev.out))) THEN R("V", "s2.mod:not-a-remainder", 0)
-  ELSE IF AbsI(S2NormV(ev.out)) >= AbsI(S2NormV(ev.y)) THEN R("D", "s2.mod:norm-not-reduced", 0)
+  ELSE IF ~Within(ev.out, 16384) \/ AbsI(S2NormV(ev.out)) >= AbsI(S2NormV(ev.y)) THEN R("D", "s2.mod:norm-not-reduced", 0)
   ELSE OK
-CheckS2Sqrt(ev) ==                                \* ev.n: coefficient bound for the brute-force root search
-  IF ev.exc = "" THEN (IF Len(ev.out) = 2 /\ S2MulV(ev.out, ev.out) = ev.x THEN OK ELSE R("V", "s2.sqrt:not-a-root", 0))
+\* r*r = x forces r[1]^2 + 2 r[2]^2 = x[1];  ev.n: coefficient bound for the brute-force root search
+CheckS2Sqrt(ev) ==
+  IF ev.exc = "" THEN (IF Len(ev.out) = 2 /\ Within(ev.out, 46340) /\ (\A m \in 1..2 : ev.out[m] * ev.out[m] <= AbsI(ev.x[1]))
+                          /\ S2MulV(ev.out, ev.out) = ev.x THEN OK ELSE R("V", "s2.sqrt:not-a-root", 0))
   ELSE IF S2Roots(ev.x, ev.n) # {} THEN R("D", "s2.sqrt:missed-root", 0) ELSE OK
 CheckOmToS2(ev) ==
   IF OmIsRealV(ev.x) THEN (IF ev.exc # "" THEN R("V", "om.tosqrt2:exception-on-real-element", 0)
                            ELSE IF ev.out # OmToS2V(ev.x) THEN R("V", "om.tosqrt2:differs-from-reference", 0) ELSE OK)
   ELSE IF ev.exc = "" THEN R("V", "om.tosqrt2:accepted-non-real-element", 0) ELSE OK
 CheckOmTrueDiv(ev) ==
-  IF ev.exc = "" THEN (IF Len(ev.out) = 4 /\ OmScaleV(ev.n, ev.out) = ev.x THEN OK ELSE R("V", "om.truediv:not-the-quotient", 0))
-  ELSE IF ev.n # 0 /\ \A m \in 1..4 : ev.x[m] % AbsI(ev.n) = 0 THEN R("D", "om.truediv:raised-on-exact-division", 0) ELSE OK
+  LET div == ev.n # 0 /\ \A m \in 1..4 : ev.x[m] % AbsI(ev.n) = 0
+      sg == IF ev.n < 0 THEN -1 ELSE 1 IN
+  IF ev.exc = "" THEN (IF Len(ev.out) = 4 /\ div /\ \A m \in 1..4 : ev.out[m] = sg * (ev.x[m] \div AbsI(ev.n)) THEN OK
+                       ELSE R("V", "om.truediv:not-the-quotient", 0))
+  ELSE IF div THEN R("D", "om.truediv:raised-on-exact-division", 0) ELSE OK
 CheckOmMod(ev) ==
   IF ev.y = OmZero THEN OK
   ELSE IF ev.exc # "" THEN R("V", "om.mod:exception", 0)
+  ELSE IF ~(Len(ev.out) = 4 /\ Within(ev.out, 4096)) THEN R("D", "om.mod:remainder-out-of-range", 0)
   ELSE IF ~(OmDividesV(ev.y, OmSubV(ev.x, ev.out)) \/ OmDividesV(ev.y, OmAddV(ev.x, ev.out))) THEN R("V", "om.mod:not-a-remainder", 0)
-  ELSE IF OmAbs(ev.out) >= OmAbs(ev.y) THEN R("D", "om.mod:norm-not-reduced", 0)
+  ELSE IF ~Within(ev.out, 64) \/ OmAbs(ev.out) >= OmAbs(ev.y) THEN R("D", "om.mod:norm-not-reduced", 0)
   ELSE OK
-CheckOmNormalize(ev) ==                           \* out = res, out2 = <<ix>>:  res * sqrt2^ix = x
+\* out = res, out2 = <<ix>>:  res * sqrt2^ix = x.  Multiplication by sqrt2 doubles the sum of the squared coefficients,
+\* so a correct answer has 2^ix * SumSq(res) = SumSq(x) and |res[m]| <= max |x[m]|.
+CheckOmNormalize(ev) ==
   IF ev.exc # "" THEN R("V", "om.normalize:exception", 0)
-  ELSE IF ~(Len(ev.out) = 4 /\ Len(ev.out2) = 1 /\ ev.out2[1] \in 0..40) THEN R("V", "om.normalize:malformed", 0)
+  ELSE IF ~(Len(ev.out) = 4 /\ Len(ev.out2) = 1) THEN R("V", "om.normalize:malformed", 0)
+  ELSE IF ~(ev.out2[1] \in 0..28 /\ Within(ev.out, MaxAbs4(ev.x)) /\ 2^ev.out2[1] <= SumSq4(ev.x)) THEN R("V", "om.normalize:value-changed", 0)
   ELSE IF OmMulRoot2Pow(ev.out, ev.out2[1]) # ev.x THEN R("V", "om.normalize:value-changed", 0)
   ELSE IF OmRoot2Divides(ev.out) THEN R("D", "om.normalize:not-fully-reduced", 0)
   ELSE OK
@@ -135,9 +152,13 @@ DyRef(ev) ==
     [] ev.op = "dy.mult2k" -> M2Mult2kV(x, ev.n)
     [] ev.op = "dy.addi" -> M2AddV(x, M2(0, <<OmInt(ev.n), OmZero, OmZero, OmInt(ev.n)>>))
 DyOps == {"dy.new", "dy.matmul", "dy.add", "dy.neg", "dy.muli", "dy.mulom", "dy.conj", "dy.adj2", "dy.mult2k", "dy.addi"}
+\* entries beyond 2^13 or a denominator exponent beyond +-40 cannot be a normalised result of the bounded inputs
+InRange2(s) == IsM2(s) /\ AbsI(s[1]) <= 40 /\ Within(s, 8192)
+InRange3(s) == IsM3(s) /\ AbsI(s[1]) <= 60 /\ Within(s, 8192)
 CheckDy(ev) ==
   IF ev.exc # "" THEN R("V", ev.op \o ":exception", 0)
   ELSE IF ~IsM2(ev.out) THEN R("V", ev.op \o ":malformed", 0)
+  ELSE IF ~InRange2(ev.out) THEN R("V", ev.op \o ":result-out-of-range", 0)
   ELSE F3(Judge2C, ev.op, DyRef(ev), D2(ev.out))
 DyLhs(ev) ==
   LET x == D2(ev.x)  y == D2(ev.y)  z == D2(ev.z) IN
@@ -152,6 +173,7 @@ CheckDyLaw(ev) ==
   LET tag == "dy.law." \o ev.law IN
   IF ev.exc # "" THEN R("V", tag \o ":exception", 0)
   ELSE IF ~(IsM2(ev.out) /\ IsM2(ev.out2)) THEN R("V", tag \o ":malformed", 0)
+  ELSE IF ~(InRange2(ev.out) /\ InRange2(ev.out2)) THEN R("V", tag \o ":result-out-of-range", 0)
   ELSE CHOOSE v \in {IF ~M2ValEqV(a, b) THEN R("V", tag \o ":sides-differ", 0)
                      ELSE IF ~M2ValEqV(a, ref) THEN R("V", tag \o ":differs-from-reference", 0)
                      ELSE IF ev.n = 1 THEN OK
@@ -161,10 +183,11 @@ CheckDyLaw(ev) ==
 CheckSo3(ev) ==
   IF ev.exc # "" THEN R("V", ev.op \o ":exception", 0)
   ELSE IF ~IsM3(ev.out) THEN R("V", ev.op \o ":malformed", 0)
+  ELSE IF ~InRange3(ev.out) THEN R("V", ev.op \o ":result-out-of-range", 0)
   ELSE IF ev.op = "so3.new" THEN F3(Judge3C, ev.op, SO3RefV(D2(ev.x)), D3(ev.out))
   ELSE IF ev.op = "so3.matmul" THEN F3(Judge3C, ev.op, M3MulV(D3(ev.x), D3(ev.y)), D3(ev.out))
   ELSE \* so3.hom: out = SO3(A) @ SO3(B), out2 = SO3(A @ B), x = A, y = B (unitary up to a scalar)
-       IF ~IsM3(ev.out2) THEN R("V", "so3.hom:malformed", 0)
+       IF ~InRange3(ev.out2) THEN R("V", "so3.hom:malformed-or-out-of-range", 0)
        ELSE CHOOSE v \in {IF ~M3ValEqV(a, b) THEN R("V", "so3.hom:not-a-homomorphism", 0)
                           ELSE IF ~M3ValEqV(a, ref) THEN R("V", "so3.hom:differs-from-reference", 0)
                           ELSE IF ev.n = 1 THEN OK
@@ -191,7 +214,8 @@ CheckSqrtMod(ev) ==
   ELSE IF p <= 4096 /\ \E r \in 0..p - 1 : (r * r) % p = a % p THEN R("D", "sqrtmod:missed-root", p) ELSE OK
 \* x = xi in Z[sqrt2]; a returned t in Z[omega] must satisfy t^+ t = xi;  z = a witness solution when the driver knows one
 CheckDioph(ev) ==
-  IF ev.exc = "" THEN (IF Len(ev.out) = 4 /\ OmMul(OmConjV(ev.out), ev.out) = S2ToOmV(ev.x) THEN OK
+  IF ev.exc = "" THEN (IF Len(ev.out) = 4 /\ Within(ev.out, MaxI(AbsI(ev.x[1]), 1)) /\ AbsI(ev.x[1]) <= 32768       \* t^+ t = xi forces SumSq(t) = xi[1]
+                          /\ OmMul(OmConjV(ev.out), ev.out) = S2ToOmV(ev.x) THEN OK
                        ELSE R("V", "diophantine:returned-solution-does-not-satisfy-equation", 0))
   ELSE IF ev.exc = "None" THEN (IF Len(ev.z) = 4 /\ OmMul(OmConjV(ev.z), ev.z) = S2ToOmV(ev.x) THEN R("D", "diophantine:missed-solution", 0) ELSE OK)
   ELSE R("D", "diophantine:exception-" \o ev.exc, 0)
@@ -210,12 +234,17 @@ CheckFacS2(ev) ==
   ELSE R("D", "factor-zsqrt2:product-differs", ev.x[1])
 CheckGcd(ev) ==
   IF ev.exc # "" THEN R("D", ev.op \o ":exception", 0)
+  ELSE IF ~Within(ev.out, 4096) THEN R("D", ev.op \o ":result-out-of-range", 0)
   ELSE IF ev.op = "nt.gcd.s2" THEN
        (IF ev.out # S2Zero /\ S2DividesV(ev.out, ev.x) /\ S2DividesV(ev.out, ev.y) THEN OK ELSE R("D", "nt.gcd.s2:not-a-common-divisor", 0))
   ELSE (IF ev.out # OmZero /\ OmDividesV(ev.out, ev.x) /\ OmDividesV(ev.out, ev.y) THEN OK ELSE R("D", "nt.gcd.om:not-a-common-divisor", 0))
 
+\* ovf = 1: the implementation returned an integer beyond 2^30 (not representable here); the reference result of every
+\* recorded call is below 2^30 by construction of the inputs, so such a result is wrong (mechanism outputs: drift)
+Mechanism == {"s2.mod", "om.mod", "nt.gcd.s2", "nt.gcd.om", "nt.factor", "nt.facs2"}
 Check(ev) ==
-  CASE ev.op \in Functional -> CheckFunctional(ev)
+  CASE ev.ovf = 1 -> R(IF ev.op \in Mechanism THEN "D" ELSE "V", ev.op \o ":result-out-of-range", 0)
+    [] ev.op \in Functional -> CheckFunctional(ev)
     [] ev.op = "s2.law" -> CheckLaw(ev, S2Lhs(ev))
     [] ev.op = "om.law" -> CheckLaw(ev, OmLhs(ev))
     [] ev.op = "s2.truediv" -> CheckS2TrueDiv(ev)
